@@ -64,7 +64,15 @@ def rule_ellipsis(ctx):
             return lp[-1] if lp else st
         a, b = top(ust), top(pick_st)
         blk = _block(parents, a)
-        if a is b:
+        # (seed C12_1) every operand contributes its symbols: the collecting statement is not guarded
+        # inside its loop (an operand without '...' uses symbols too)
+        inner_guards = [i for i, _ in C.enclosing_ifs(f, ust)
+                        if any(i is x for lp_ in C.enclosing_loops(f, ust) for x in ast.walk(lp_))]
+        if inner_guards:
+            r.violation(k, C.loc(f, ust), f"`{C.unparse(ust, 40)}` only runs under `{C.unparse(inner_guards[0].test, 40)}`: "
+                        f"symbols of the operands that fail the test are not reserved, so the symbols chosen for "
+                        f"'...' can coincide with an index of such an operand and the two are identified")
+        elif a is b:
             r.violation(k, C.loc(f, picks[0]), f"fresh symbols are chosen inside the loop that still collects "
                         f"`{uname}`: symbols of later operands are not excluded yet")
         elif any(x is b for x in blk) and [i for i, x in enumerate(blk) if x is a][0] < \
@@ -193,57 +201,138 @@ def rule_implicit(ctx):
     return r
 
 
+def _odd_test(t, nname):
+    """True iff `t` is (equivalent on small counts to) 'the argument count is odd'."""
+    if isinstance(t, ast.Compare) and len(t.ops) == 1 and isinstance(t.left, ast.BinOp) and isinstance(t.left.op, ast.Mod):
+        try:
+            return all(({ast.Eq: lambda a, b: a == b, ast.NotEq: lambda a, b: a != b}[type(t.ops[0])])(
+                _ev(t.left, {nname: n_}), _ev(t.comparators[0], {nname: n_})) == (n_ % 2 == 1)
+                for n_ in (2, 3, 4, 5))
+        except (KeyError, AnalysisError):
+            return False
+    if isinstance(t, ast.BinOp) and isinstance(t.op, ast.Mod):
+        # bare `n % 2` as a truth value
+        try:
+            return all(bool(_ev(t, {nname: n_})) == (n_ % 2 == 1) for n_ in (2, 3, 4, 5))
+        except AnalysisError:
+            return False
+    return False
+
+
 def rule_interleaved(ctx):
     r = RuleResult("C12-INTERLEAVED", "interleaved call form", 2)
     f = ctx.p.func(C.UTILS, "convert_from_interleaved")
-    loops = [n for n in walk_local(f.node) if isinstance(n, ast.For)]
-    C.require(loops, "convert_from_interleaved: loop not found")
-    lp = loops[0]
-    k = ctx.key(f, "C12-INTERLEAVED", "positions")
     nname = None
     for n in walk_local(f.node):
         if isinstance(n, ast.Assign) and isinstance(n.value, ast.Call) and dotted(n.value.func) == "len":
             nname = n.targets[0].id
-    C.require(nname and isinstance(lp.target, ast.Name), "convert_from_interleaved: counter not found")
-    apps = [n for n in ast.walk(lp) if isinstance(n, ast.Call) and isinstance(n.func, ast.Attribute)
-            and n.func.attr == "append" and n.args and isinstance(n.args[0], ast.Subscript)]
-    C.require(len(apps) == 2, "convert_from_interleaved: the two appends not found")
+    C.require(nname, "convert_from_interleaved: argument count not found")
+    argname = f.node.args.vararg.arg if f.node.args.vararg else (f.node.args.args[0].arg if f.node.args.args else None)
+    C.require(argname, "convert_from_interleaved: argument tuple not found")
+    k = ctx.key(f, "C12-INTERLEAVED", "positions")
+    loops = [n for n in walk_local(f.node) if isinstance(n, ast.For)
+             and isinstance(n.iter, ast.Call) and dotted(n.iter.func) == "range"]
+    slices = [n for n in walk_local(f.node) if isinstance(n, ast.Subscript) and dotted(n.value) == argname
+              and isinstance(n.slice, ast.Slice)]
     bad = None
-    for nargs in (2, 3, 4, 5, 6, 7):
-        try:
-            rng = list(range(*[_ev(a, {nname: nargs}) for a in lp.iter.args]))
-        except AnalysisError as e:
-            raise AnalysisError(f"convert_from_interleaved: {e}")
-        got = []
-        for i in rng:
-            got.append(tuple(_ev(a.args[0].slice, {nname: nargs, lp.target.id: i}) for a in apps))
-        want = [(2 * i, 2 * i + 1) for i in range(nargs // 2)]
-        if got != want and bad is None:
-            bad = (nargs, got, want)
+    where = f.node
+    if loops:
+        lp = where = loops[0]
+        C.require(isinstance(lp.target, ast.Name), "convert_from_interleaved: counter not found")
+        apps = [n for n in ast.walk(lp) if isinstance(n, ast.Call) and isinstance(n.func, ast.Attribute)
+                and n.func.attr == "append" and n.args and isinstance(n.args[0], ast.Subscript)]
+        C.require(len(apps) == 2, "convert_from_interleaved: the two appends not found")
+        for nargs in (2, 3, 4, 5, 6, 7):
+            try:
+                rng = list(range(*[_ev(a, {nname: nargs}) for a in lp.iter.args]))
+                got = [tuple(_ev(a.args[0].slice, {nname: nargs, lp.target.id: i}) for a in apps) for i in rng]
+            except AnalysisError as e:
+                raise AnalysisError(f"convert_from_interleaved: {e}")
+            want = [(2 * i, 2 * i + 1) for i in range(nargs // 2)]
+            if got != want and bad is None:
+                bad = (nargs, got, want)
+    elif len(slices) == 2:
+        # strided-slice form: arrays = args[0:n-1:2]; inputs = args[1:n:2]
+        # which of the two is the list of operands: the one whose name is returned as it is
+        ret_names = {x.id for n in walk_local(f.node) if isinstance(n, ast.Return) and n.value is not None
+                     for x in ast.walk(n.value) if isinstance(x, ast.Name)}
+
+        def tname(s_):
+            st = C.enclosing_stmt(f, s_)
+            return st.targets[0].id if isinstance(st, ast.Assign) and isinstance(st.targets[0], ast.Name) else None
+        slices.sort(key=lambda s_: (tname(s_) not in ret_names, s_.lineno, s_.col_offset))
+        C.require(tname(slices[0]) in ret_names and tname(slices[1]) not in ret_names,
+                  "convert_from_interleaved: operand and sublist slices not told apart")
+        where = slices[0]
+        for nargs in (2, 3, 4, 5, 6, 7):
+            cols = []
+            for s_ in slices:
+                try:
+                    lo, up, stp = (None if b_ is None else _ev(b_, {nname: nargs})
+                                   for b_ in (s_.slice.lower, s_.slice.upper, s_.slice.step))
+                except AnalysisError as e:
+                    raise AnalysisError(f"convert_from_interleaved: {e}")
+                cols.append(list(range(nargs))[lo:up:stp])
+            got = list(zip(*cols)) if len(cols[0]) == len(cols[1]) else cols
+            want = [(2 * i, 2 * i + 1) for i in range(nargs // 2)]
+            if got != want and bad is None:
+                bad = (nargs, got, want)
+    else:
+        raise AnalysisError("convert_from_interleaved: neither the index loop nor two strided slices of the "
+                            "arguments found")
     if bad:
-        r.violation(k, C.loc(f, lp), f"for {bad[0]} arguments the (operand, sublist) positions read are {bad[1]}, "
+        r.violation(k, C.loc(f, where), f"for {bad[0]} arguments the (operand, sublist) positions read are {bad[1]}, "
                     f"expected {bad[2]}")
     else:
-        # the first append fills the arrays (returned second), the second the inputs
-        r.ok(k, C.loc(f, lp), "operands at 2i, sublists at 2i + 1 for i < n // 2")
+        r.ok(k, C.loc(f, where), "operands at 2i, sublists at 2i + 1 for i < n // 2")
+    # output: the branch that writes '->' into the equation
     k = ctx.key(f, "C12-INTERLEAVED", "output")
-    ifs = [n for n in walk_local(f.node) if isinstance(n, ast.If) and nname in C.unparse(n.test)]
-    good = False
-    for i in ifs:
-        t = i.test
-        if isinstance(t, ast.Compare) and isinstance(t.left, ast.BinOp) and isinstance(t.left.op, ast.Mod):
-            try:
-                odd = all(({ast.Eq: lambda a, b: a == b, ast.NotEq: lambda a, b: a != b}[type(t.ops[0])])(
-                    _ev(t.left, {nname: n_}), _ev(t.comparators[0], {nname: n_})) == (n_ % 2 == 1)
-                    for n_ in (2, 3, 4, 5))
-            except (KeyError, AnalysisError):
-                odd = False
-            uses_last = any(isinstance(x, ast.Subscript) and C.unparse(x.slice) == "-1" for s in i.body for x in ast.walk(s))
-            good = odd and uses_last
-    if good:
-        r.ok(k, f.loc, "an output sublist is read (from the last argument) iff the argument count is odd")
+    arrow = [n for n in walk_local(f.node) if isinstance(n, ast.If)
+             and any(isinstance(x, ast.Constant) and isinstance(x.value, str) and "->" in x.value
+                     for s_ in n.body for x in ast.walk(s_))]
+    C.require(arrow, "convert_from_interleaved: the branch that appends the output not found")
+    i = arrow[0]
+    t = i.test
+    la = ctx.r.local_assignments(f)
+
+    def last_of_args(e):
+        return isinstance(e, ast.Subscript) and dotted(e.value) == argname and C.unparse(e.slice) == "-1"
+
+    verdict = None
+    only_count = {x.id for x in ast.walk(t) if isinstance(x, ast.Name)} == {nname}
+    if only_count and not _odd_test(t, nname):
+        verdict = "not-last"
+    elif _odd_test(t, nname):
+        src = [x for s_ in i.body for x in ast.walk(s_) if last_of_args(x)]
+        names = {x.id for s_ in i.body for x in ast.walk(s_) if isinstance(x, ast.Name)}
+        via = [nm for nm in names if any(last_of_args(y) for v in la.get(nm, []) for y in ast.walk(v))]
+        verdict = "ok" if (src or via) else "not-last"
     else:
-        r.violation(k, f.loc, "the output sublist is not taken from the last argument exactly when the number of "
+        # a local that holds the last argument when the count is odd, and None otherwise
+        nm = None
+        form = None
+        if isinstance(t, ast.Name):
+            nm, form = t.id, "truth"
+        elif isinstance(t, ast.Compare) and isinstance(t.left, ast.Name) and len(t.ops) == 1 and \
+                isinstance(t.comparators[0], ast.Constant) and t.comparators[0].value is None:
+            nm, form = t.left.id, ("isnot" if isinstance(t.ops[0], ast.IsNot) else "other")
+        defs = la.get(nm, []) if nm else []
+        holder = len(defs) == 1 and isinstance(defs[0], ast.IfExp) and _odd_test(defs[0].test, nname) and \
+            last_of_args(defs[0].body) and isinstance(defs[0].orelse, ast.Constant) and defs[0].orelse.value is None
+        if holder and form == "isnot":
+            verdict = "ok"
+        elif holder and form == "truth":
+            verdict = "truthiness"
+        else:
+            raise AnalysisError(f"convert_from_interleaved: test `{C.unparse(t, 60)}` of the output branch not classified")
+    if verdict == "ok":
+        r.ok(k, C.loc(f, i), "an output sublist is read (from the last argument) iff the argument count is odd")
+    elif verdict == "truthiness":
+        r.violation(k, C.loc(f, i), f"`if {C.unparse(t)}:` tests the output sublist by truth value: an explicit "
+                    f"*empty* output (`einsum(x, [0, 1], y, [1, 2], [])`, full contraction to a scalar) is falsy and "
+                    f"is treated as 'no output given'")
+    else:
+        r.violation(k, C.loc(f, i), "the output sublist is not taken from the last argument exactly when the number of "
                     "arguments is odd")
     return r
 
